@@ -294,6 +294,8 @@ def run_case(case):
     S = W.stack('S', max_cmdt_packets=rng.choice([1, 2, 255]), **skw)
     if rxp:
         sholder.append(S)
+        if random.Random(case['seed'] ^ 0x5105).random() < 0.5:
+            S.send_time = (0.0, 0.002)          # a slow interface: every send call blocks its (controlled) caller up to 2 ms
     sim.trace_hook = None
     P = W.stack('P', max_cmdt_packets=rng.choice([1, 3, 255]))
     if rng.random() < 0.3:
